@@ -148,7 +148,7 @@ ReadOwnDump == [][(/\ log # << >> /\ log[Len(log)].k = "dump"
                    /\ Len(log') = Len(log) + 1 /\ log'[Len(log')].k = "read")
                   => (obj' = obj /\ log'[Len(log')].outcome = "ok")]_vars
 
-Spellings == \A p \in Params : Kind(p) = "bool" =>
+Spellings == failed \in BOOLEAN /\ \A p \in Params : Kind(p) = "bool" =>
     /\ \A ft \in Row[p].fok : ft \in TrueSpellings \cup FalseSpellings
     /\ \A ft \in Row[p].fok \cap TrueSpellings : Decode(p, ft) = "b:True" /\ Decode(p, Encode(p, "b:True")) = "b:True"
     /\ \A ft \in Row[p].fok \cap FalseSpellings : Decode(p, ft) = "b:False" /\ Decode(p, Encode(p, "b:False")) = "b:False"
